@@ -720,8 +720,17 @@ class Gen(object):
                 del new_inv[key]
             for rc, i in cur.items():
                 new_inv[(rp, rc)] = M.Model._inv_full(m, i)
+            # optional fields that carry their documented default are often
+            # left out, as real clients do
+            emit = {}
+            for rc, i in cur.items():
+                e = dict(i)
+                for f, dv in M.INV_DEFAULTS.items():
+                    if e.get(f) == dv and self.chance(0.6):
+                        del e[f]
+                emit[rc] = e
             invs[rp] = {'resource_provider_generation': self.gen_for(m, rp),
-                        'inventories': cur}
+                        'inventories': emit}
         # consumers touching those providers must be re-stated
         cs = [c for c, a in m.allocations.items()
               if any(rp in a for rp in rps)]
